@@ -932,9 +932,59 @@ def lookup(ctx, name, env):
     return ("sym", name)
 
 
+_WRITTEN_GLOBALS = {}
+_MUTATORS = {"append", "extend", "insert", "pop", "remove", "clear", "update", "setdefault", "popitem", "sort", "reverse", "add", "discard"}
+
+
+def written_globals(repo, modname):
+    """names of module-level objects that some function of the module stores into, mutates through a method, rebinds with `global`,
+    or hands to a local alias that is then written: their initial literal is not their value"""
+    key = (id(repo), modname)
+    if key not in _WRITTEN_GLOBALS:
+        m = repo.modules.get(modname)
+        out = set()
+        if m is not None:
+            globs = set(m.globals)
+            for fn in ast.walk(m.tree):
+                if not isinstance(fn, (ast.FunctionDef, ast.Lambda)):
+                    continue
+                alias = {}
+                for n in ast.walk(fn):
+                    if isinstance(n, ast.Assign) and isinstance(n.value, ast.Name) and n.value.id in globs:
+                        for t in n.targets:
+                            if isinstance(t, ast.Name):
+                                alias[t.id] = n.value.id
+
+                def base(x):
+                    while isinstance(x, (ast.Subscript, ast.Attribute)):
+                        x = x.value
+                    if isinstance(x, ast.Name):
+                        return alias.get(x.id, x.id if x.id in globs else None)
+                    return None
+                for n in ast.walk(fn):
+                    if isinstance(n, ast.Global):
+                        out.update(n.names)
+                    tg = []
+                    if isinstance(n, ast.Assign):
+                        tg = n.targets
+                    elif isinstance(n, (ast.AugAssign, ast.AnnAssign)):
+                        tg = [n.target]
+                    elif isinstance(n, ast.Delete):
+                        tg = n.targets
+                    for t in tg:
+                        if isinstance(t, (ast.Subscript, ast.Attribute)) and base(t) is not None:
+                            out.add(base(t))
+                    if isinstance(n, ast.Call) and isinstance(n.func, ast.Attribute) and n.func.attr in _MUTATORS and base(n.func.value) is not None:
+                        out.add(base(n.func.value))
+        _WRITTEN_GLOBALS[key] = out
+    return _WRITTEN_GLOBALS[key]
+
+
 def global_value(ctx, modname, name, gnode):
     """Module-level constant: numbers and Angle/Epoch constructions are folded,
     tables stay symbolic (('sym','Mod.NAME'))."""
+    if isinstance(gnode, (ast.List, ast.Dict, ast.Set)) and name in written_globals(ctx.repo, modname):
+        return ("sym", "%s.%s" % (modname, name))       # module-level state, not a constant
     if isinstance(gnode, ast.Constant) and isinstance(gnode.value, (int, float)) and not isinstance(gnode.value, bool):
         return ("num", lit_fraction(gnode))
     if isinstance(gnode, (ast.BinOp, ast.UnaryOp)):
